@@ -273,3 +273,57 @@ Proof.
     + intros [H | H]; [inversion H; subst; simpl; auto | tauto].
     + intros [[H | H] D]; [subst; simpl in D; left; congruence | right; auto].
 Qed.
+
+(* ------------------------------------------------------------ uses is the inverse of the listings *)
+Definition matches (x : str) (ov : option str) (q : node) : Prop :=
+  nname q = x /\ match ov with None => True | Some v => nver q = Some v end.
+
+Lemma key_matches_spec x ov q : key_matches x ov (ukey_of q) = true <-> matches x ov q.
+Proof.
+  unfold key_matches, matches, ukey_of. simpl. rewrite andb_true_iff, str_eqb_eq.
+  destruct ov as [v|]; [rewrite ostr_eqb_eq|]; tauto.
+Qed.
+
+Definition pnode (y : str * str) : node := (fst y, Some (snd y), true).
+
+Lemma uses_inverse_listing fuel w idx x ov us y :
+  uses_index fuel w = Ok idx -> users idx x ov = Ok us ->
+  (In y (map cuser us) <->
+   In y (map fst w) /\
+   exists l, dependent_products fuel w (pnode y) true = Ok l /\ exists q, In q (map enode l) /\ matches x ov q).
+Proof.
+  intros Hi Hu. destruct (users_total_ok idx x ov) as [us' [E [H _]]]. rewrite Hu in E. inversion E. subst us'.
+  assert (Hm : In y (map cuser us) <-> In y (map cuser (consumers idx x ov))).
+  { rewrite !in_map_iff. split; intros [c [Q I]]; exists c; (split; [exact Q | apply H, I]). }
+  rewrite Hm, consumers_users. unfold uses_index in Hi.
+  pose proof (listings_with_spec _ _ _ _ _ Hi) as Hs. split.
+  - intros [l [I [e [Ie Mk]]]]. apply Hs in I as [I1 I2]. split; [exact I1|]. exists l. split; [exact I2|].
+    exists (enode e). split; [apply in_map, Ie | apply key_matches_spec, Mk].
+  - intros [I1 [l [I2 [q [Iq Mq]]]]]. exists l. split; [apply Hs; auto|].
+    apply in_map_iff in Iq as [e [<- Ie]]. exists e. split; [exact Ie | apply key_matches_spec, Mq].
+Qed.
+
+Lemma uses_inverse_reach fuel w idx x ov us y :
+  length w < fuel ->
+  uses_index fuel w = Ok idx -> users idx x ov = Ok us ->
+  (In y (map cuser us) <->
+   In y (map fst w) /\ exists q, q <> pnode y /\ reach_plus w (pnode y) q /\ matches x ov q).
+Proof.
+  intros Hf Hi Hu. rewrite (uses_inverse_listing fuel w idx x ov us y Hi Hu). split.
+  - intros [I [l [D [q [Iq Mq]]]]]. split; [exact I|]. exists q.
+    destruct (listing_topological _ _ _ _ _ Hf D) as [HL _]. apply HL in Iq. tauto.
+  - intros [I [q [Ne [R Mq]]]]. split; [exact I|].
+    pose proof (listings_with_spec _ _ _ _ _ Hi) as Hs.
+    apply in_map_iff in I as [[u es] [Eu Iw]]. simpl in Eu. subst u.
+    (* the index holds a listing for every declared product *)
+    assert (Hex : forall ps idx0, listings_with node_cmp fuel w ps = Ok idx0 -> forall u, In u ps -> exists l, In (u, l) idx0).
+    { induction ps as [|[n v] r IH]; intros idx0; simpl; [intros _ u []|].
+      destruct (dependent_products_with node_cmp fuel w (n, Some v, true) true) as [l0|]; [|discriminate].
+      destruct (listings_with node_cmp fuel w r) as [ls|] eqn:El; [|discriminate].
+      intros Q u [<- | Iu]; inversion Q; subst.
+      - exists l0. left. reflexivity.
+      - destruct (IH ls eq_refl u Iu) as [l Il]. exists l. right. exact Il. }
+    destruct (Hex _ _ Hi y) as [l Il]; [apply in_map_iff; exists (y, es); auto|].
+    apply Hs in Il as [_ D]. exists l. split; [exact D|]. exists q. split; [|exact Mq].
+    destruct (listing_topological _ _ _ _ _ Hf D) as [HL _]. apply HL. auto.
+Qed.
